@@ -229,13 +229,15 @@ def run_case(inp):
         pos, rot, feat = g
         perr = float(np.abs(np.asarray(pos, dtype=float) - pstar).max())
         aerr = float((rot * Rstar.inv()).magnitude())
-        if perr > 0.15 * scale:
+        # "sub-pixel accuracy": ZNCC / NCC reach 0.1 px on these twice-interpolated particles, the whitened PCC 0.25 px
+        tol_px = 0.3 if inp["model"] == "PCC" else 0.15
+        if perr > tol_px * scale:
             V_("position", f"molecule {i}: output position differs from the true pose by {perr / scale:.3f} px "
                            f"(via {via}, model {inp['model']}, searched rotation #{inp['ks'][i % len(inp['ks'])]}, scale {scale})")
         if aerr > 2e-3:
             V_("orientation", f"molecule {i}: output orientation differs from the true pose by {aerr:.4f} rad")
         fz, fy, fx = (float(feat[c][0]) for c in ("align-dz", "align-dy", "align-dx"))
-        if np.abs(np.array([fz, fy, fx]) - dnm).max() > 0.15 * scale + 0.006:
+        if np.abs(np.array([fz, fy, fx]) - dnm).max() > tol_px * scale + 0.006:
             V_("features", f"molecule {i}: align-d* features {[fz, fy, fx]} do not describe the shift {dnm.tolist()}")
         rv = np.array([float(feat[c][0]) for c in ("align-dzrot", "align-dyrot", "align-dxrot")])
         if np.abs(rv - Q.as_rotvec()).max() > 2e-3:
